@@ -106,14 +106,18 @@ const Statement * FORStatement::doit(Context& ctx) const
   {
     RT * data = reinterpret_cast<RT*>(ctx.topControlData());
     /* var is type safe, so it can be read/write without care */
-    Integer nxt = *(data->iterator->integer()) + data->step;
-    if ((data->step > 0 && nxt > data->max) ||
-        (data->step < 0 && nxt < data->min))
+    /* the distance to the bound is compared unsigned, so that the control
+     * variable can never wrap around near the limits of the integer range */
+    Integer cur = *(data->iterator->integer());
+    if ((data->step > 0 && (cur > data->max ||
+            (uint64_t)data->max - (uint64_t)cur < (uint64_t)data->step)) ||
+        (data->step < 0 && (cur < data->min ||
+            (uint64_t)cur - (uint64_t)data->min < (uint64_t)(-data->step))))
     {
       ctx.unstackControl();
       return _next;
     }
-    *(data->iterator->integer()) = nxt;
+    *(data->iterator->integer()) = cur + data->step;
   }
 
   /* it should run with the given context, and will throw on error */
